@@ -27,7 +27,8 @@ def scratch():
     return d
 
 
-def run(prop, repo_dir, tier, seed="1"):
+def run(prop, repo_dir, tier, seed=None):
+    seed = seed or os.environ.get("VERIF_SEED", "1")
     out = tempfile.mkdtemp(prefix="vfout-")
     env = dict(os.environ, VERIF_REPO=repo_dir, VERIF_OUT=out, VERIF_SEED=seed)
     t = time.time()
@@ -54,11 +55,12 @@ def main():
     ap.add_argument("--tier", default="quick")
     ap.add_argument("--seeded", action="store_true", help="also run seeded/<id>/patch.diff changes")
     ap.add_argument("--verbose", action="store_true")
+    ap.add_argument("--seeds-only", action="store_true")
     a = ap.parse_args()
-    props = a.props or sorted({os.path.basename(p)[:-3] for p in glob.glob(os.path.join(HERE, "tools", "mutants", "C*.py"))})
+    props = a.props or sorted({os.path.basename(p)[:-3] for p in glob.glob(os.path.join(HERE, "tools", "mutants", "C*.py"))} | {os.path.basename(d).split("-")[0] for d in glob.glob(os.path.join(HERE, "seeded", "C*"))})
     results = []
     for prop in props:
-        jobs = [("mutant", *m) for m in load_mutants(prop)]
+        jobs = [] if a.seeds_only else [("mutant", *m) for m in load_mutants(prop)]
         if a.seeded:
             for d in sorted(glob.glob(os.path.join(HERE, "seeded", "*"))):
                 meta = os.path.join(d, "meta.json")
